@@ -7,17 +7,25 @@ ID = "C01"
 LEAN_MODULE = "Ctrmml.Properties.C01"
 THEOREMS = ["C01_fold_sound", "C01_fold_sound_root", "C01_fold_accepts", "C01_fold0_sound", "C01_fold0_accepts",
             "C01_extract_one_sound", "C01_extract_sound", "C01_extract_accepts", "C01_passes_preserve",
-            "C01_passes_preserve_nodepth", "C01_full_partial"]
+            "C01_passes_preserve_nodepth", "C01_full_partial",
+            # layers 2-3: the executable model of the optimiser performs these rewrites
+            "C01_passesN_preserve_nodepth", "applyMatch_loop_is_step", "applyMatch_sub_is_step", "pass_loop_is_step",
+            "pass_is_step", "optimize_loop_chain", "optimize_chain", "C01_optimize_preserves_partial",
+            "C01_optimize_preserves", "C01_fold_pass_decreases"]
 LEVEL = "proof"
 STREAM = "opt.final"
 CHUNK = 150
 CASE_SECONDS = 20
 TECHNIQUE = "Lean 4 proof of rewrite soundness (loop folding and subroutine extraction preserve the structural expansion) + spec expander applied to the real optimiser's output"
-LEVEL_TEXT = ("see lean/Ctrmml/Properties/C01.lean for what is proved (rewrite soundness over Spec/Expand) and C01_full_statement for what is not; every generated valid song is run "
+LEVEL_TEXT = ("see lean/Ctrmml/Properties/C01.lean: rewrite soundness over Spec/Expand (layer 1) and, for the executable model of the whole optimiser (Model/Optimizer.lean), "
+              "C01_optimize_preserves: every normal return with a validating result preserves what every original track plays (layers 2-3: find_match_length / find_match / apply_match / "
+              "find_subroutines perform only the proven-sound rewrites, up to LOOP_BREAK params); NOT proved: termination (C01_optimize_terminates_statement, only the loop-fold half of the "
+              "measure argument) and that the stack analysis keeps the result within the depth limit (D18); every generated valid song is run "
               "through the REAL optimiser and the spec expander (perf) compares, for every original track, the played events with durations, the total length and the loop-point time "
               "before and after, and requires normal termination and a validating result, for aggressiveness thresholds 0..10.")
-LEVEL_NOTE = ("Trusted: Lean kernel; Spec/Tree + Spec/Expand (meaning of loops/breaks/calls, shared with C04 where the real player is proved/tested to refine it); harness. The optimiser's "
-              "search (find_match etc.) is not modelled yet, so the claim 'the search only proposes sound rewrites' rests on the per-case oracle (partial).")
+LEVEL_NOTE = ("Trusted: Lean kernel; Spec/Tree + Spec/Expand (meaning of loops/breaks/calls, shared with C04 where the real player is proved/tested to refine it); harness. The model of the "
+              "optimiser is tied to src/optimizer.cpp by the differential stream (same song and passes on every generated case); hypotheses of C01_optimize_preserves: distinct sorted track ids "
+              "< 32767, no explicit END event, LOOP_BREAKs without duration, tracks < 32767 events, subroutine ids stay below 32768.")
 RULE = ("motif-repetition songs (A^k, A^k A[0..j), motifs with nested loops, breaks and calls, loop point at any depth-0 position, 1..4 channel tracks sharing motifs, tracks > 15) "
         "x min_score in {0,1,3,5,10} (all of 0..10 thorough) + all tracks over a 4-symbol alphabet up to length 6 (8 thorough); non-trivial = optimiser changed the song; distinct by request")
 EXPLANATION = "spec expander on the real optimiser's output vs on its input"
